@@ -10,7 +10,7 @@
 from vlib import ctx
 from vlib.ctx import P, verdict, detail
 from vlib.obl import Obl
-from vlib.base import run, symbolic_mode, notrace
+from vlib.base import run, symbolic_mode, notrace, realize
 
 LEVEL = "model_checking"
 EXPLANATION = ("one-step symbolic execution of Function.service_register/service_remove from an arbitrary valid table; full-stack symbolic histories of service declarations and calls in two "
@@ -35,7 +35,8 @@ def register_step(cnt: int, owner: int, who: int, op: int) -> bool:
     names = [None, "file.a", "file.b"]
     reg = Services(None)
     saved = (Function.hass, dict(Function.service_cnt), dict(Function.service2global_ctx))
-    Function.hass = type("H", (), {"services": reg})()
+    with notrace():                                  # (class creation under tracing copies the attribute values)
+        Function.hass = type("H", (), {"services": reg})()
     Function.service_cnt.clear(); Function.service2global_ctx.clear()
     cb_old = object(); cb_new = object()
     try:
@@ -81,16 +82,24 @@ FRAG = {
 }
 
 
+def _pick(v, n):
+    """concretise a small symbolic index by case split (one solver decision per value)"""
+    for i in range(n):
+        if v == i: return i
+    return v
+
+
 def history(o1: int, o2: int, o3: int, o4: int, o5: int, x: int) -> bool:
     """
     pre: 0 <= o1 <= 8 and 0 <= o2 <= 8 and 0 <= o3 <= 8 and 0 <= o4 <= 8 and 0 <= o5 <= 8 and o1 == P("first")
+    pre: P("last") is None or [o1, o2, o3, o4, o5][P("k") - 1] in P("last")
     post: _
     """
     from vlib.world import mkworld
     from vlib.base import GlobalContextMgr, AstEval, Function, GlobalContext
     from homeassistant.core import SupportsResponse
     n = P("k")
-    ops = [o1, o2, o3, o4, o5][:n]
+    ops = [_pick(o, 9) for o in [o1, o2, o3, o4, o5][:n]]      # (a symbolic key into the fragment table costs more than the enumeration it stands for)
     with notrace():
         w = mkworld(P("legacy"))
     try:
@@ -125,19 +134,22 @@ def history(o1: int, o2: int, o3: int, o4: int, o5: int, x: int) -> bool:
                     if not good: ok = False; why.append(("call-result", name, res, g_, s_))
             elif frag is None:
                 if alive_ctx["a"]:
-                    GlobalContextMgr.delete("file.a"); w.settle(); alive_ctx["a"] = False
+                    with notrace():
+                        GlobalContextMgr.delete("file.a"); w.settle()
+                    alive_ctx["a"] = False
                     expected_runs["a_final"] = list(gs["a"].global_sym_table["runs"])
                     drop("a")
             elif alive_ctx[cx]:
                 gen += 1
-                a = AstEval("file." + cx, gs[cx]); Function.install_ast_funcs(a)
-                a.parse(frag.replace("GEN", str(gen)))
-                try:
-                    w.run(a.eval())
-                except NameError:
-                    pass                                         # `del` of a name that is not defined
-                w.settle()
-                import gc; gc.collect(); w.settle()
+                with notrace():                                  # the fragment is concrete once the operation index is chosen: definitions run untraced
+                    a = AstEval("file." + cx, gs[cx]); Function.install_ast_funcs(a)
+                    a.parse(frag.replace("GEN", str(gen)))
+                    try:
+                        w.run(a.eval())
+                    except NameError:
+                        pass                                         # `del` of a name that is not defined
+                    w.settle()
+                    import gc; gc.collect(); w.settle()
                 if frag.startswith("del"):
                     drop(cx)
                 else:
@@ -290,14 +302,14 @@ def outgoing(form: int, hb: int, hr: int, hc: int, sup: int, v: int) -> bool:
 
 def obligations(tier):
     o = []
-    o.append(Obl("C12.register_step", __name__, "register_step", {}, timeout=300,
+    o.append(Obl("C12.register_step", __name__, "register_step", {}, timeout=300, twin=False,
                  desc="service_register / service_remove from an arbitrary valid (count, owner, registry) table: invariant count>0 <=> registered <=> owner preserved; a second owner is refused "
                       "without side effects; the registration goes away exactly when the count reaches zero",
-                 sym="count 0..3, owner in {none, a, b}, acting context, operation - symbolic", encodes=("function.Function.service_register", "function.Function.service_remove")))
+                 sym="count 0..3, owner in {none, a, b}, acting context, operation - symbolic"))
     k = 4 if tier == "quick" else 5
     for legacy in (False, True):
         for first in (0, 1, 2, 4):
-            o.append(Obl(f"C12.history.first{first}.{'legacy' if legacy else 'default'}", __name__, "history", {"legacy": legacy, "k": k, "first": first}, timeout=1500 if tier == "quick" else 3000,
+            o.append(Obl(f"C12.history.first{first}.{'legacy' if legacy else 'default'}", __name__, "history", {"legacy": legacy, "k": k, "first": first, "last": None}, timeout=1500 if tier == "quick" else 3000,
                          desc="after every define / redefine (same name, aliases, other name, response modes) / del / competing definition in a second context / context deletion: has_service and "
                               "the owner table equal the live owner declarations; a call runs the newest definition with the call's data and trigger_type='service' and returns its value when a response is supported",
                          sym=f"{k} operations (first fixed to kind {first}) out of 9 kinds; call data x symbolic int", real_loop=True, twin=(first == 0),
